@@ -78,6 +78,26 @@ func judgeTx(r *core.Run, traces []*core.Trace, o reportOpts) {
 	Report(r, all, o)
 }
 
+// exploreTx runs the exhaustive TxFile.tla configurations of the tier in the background and
+// returns the function that waits for them. quick: 6 page ids, 2 transactions x 3 operations,
+// 1 reader; thorough: 7-8 page ids, 3 x 3, pre-sized meta area, WAL limits 1/2/3, a file
+// that fills up, plus the enumerative cross-check of CrashSafe.
+func exploreTx(r *core.Run) func() {
+	cfgs := []string{"MC_TxFile_s.cfg"}
+	if r.Thorough() {
+		cfgs = []string{"MC_TxFile_q.cfg", "MC_TxFile_meta.cfg", "MC_TxFile_full.cfg", "MC_TxFile_agree.cfg"}
+	}
+	var wg sync.WaitGroup
+	wg.Add(1)
+	go func() {
+		defer wg.Done()
+		for _, c := range cfgs {
+			r.Explore(core.TLCOpts{Module: "MC_TxFile", Config: c, Timeout: 40 * time.Minute, HeapMB: 12000, Workers: 8, Coverage: r.Thorough() && c == "MC_TxFile_full.cfg"})
+		}
+	}()
+	return wg.Wait
+}
+
 // baseCfgs enumerates the configuration dimensions of the store.
 func baseCfgs(r *core.Run, name string, n int, f func(i int, c *HistCfg)) []HistCfg {
 	var out []HistCfg
@@ -108,6 +128,7 @@ func baseCfgs(r *core.Run, name string, n int, f func(i int, c *HistCfg)) []Hist
 
 // CheckC03: the store returns what was written.
 func CheckC03(r *core.Run) {
+	defer exploreTx(r)()
 	r.Rule = "random transaction histories (alloc, full/partial SetBytes, Load+MarkDirty, free, Flush, CheckpointWAL, SetRoot, commit/rollback/close, reopen) over page size x max size x initial meta area x WAL limit; every read (inside write transactions, through readers after every transaction, after reopen) is judged by TLC against the sequential model of TxTrace.tla; distinct = distinct configurations/seeds"
 	cfgs := baseCfgs(r, "c03", r.Pick(36, 240), func(i int, c *HistCfg) {
 		c.Txs = r.Pick(30, 60)
@@ -153,6 +174,7 @@ func stripBig(evs []core.Event) []core.Event {
 
 // CheckC04: exclusive page ownership.
 func CheckC04(r *core.Run) {
+	defer exploreTx(r)()
 	r.Rule = "random histories biased to allocation/free churn (frees of committed and of just allocated pages, overwrites consuming WAL pages, rollbacks, reopen, bounded/unbounded, pre-sized meta area, overflow transactions); every Alloc result is judged by TxTrace.tla!AllocOK and Ownership/Partition are evaluated on the real allocator projection after every operation; distinct = configurations/seeds"
 	cfgs := baseCfgs(r, "c04", r.Pick(36, 240), func(i int, c *HistCfg) {
 		c.Txs = r.Pick(40, 80)
@@ -174,6 +196,7 @@ func CheckC04(r *core.Run) {
 
 // CheckC07: abort leaves no trace.
 func CheckC07(r *core.Run) {
+	defer exploreTx(r)()
 	r.Rule = "random histories in which most transactions are aborted (Rollback, Close) after allocations from freelist and end of file, frees of old and new pages, overwrites growing the meta area and Flush; the complete projection after the abort must equal the one at Begin (TxTrace.tla!Abort), reads return the committed model, and the state after reopening is unchanged; distinct = configurations/seeds"
 	cfgs := baseCfgs(r, "c07", r.Pick(36, 240), func(i int, c *HistCfg) {
 		c.Txs = r.Pick(40, 80)
@@ -200,6 +223,7 @@ func CheckC07(r *core.Run) {
 
 // CheckC11: space conservation, size limit, stats.
 func CheckC11(r *core.Run) {
+	defer exploreTx(r)()
 	r.Rule = "long alloc/free cycles on small bounded files (no overflow transactions); Partition, MetaAccounting, Conservation (allocatable + live + meta + 2 = max), StatsTruthful and the extent bound are evaluated by TLC at every quiescent point on the real allocator projection; distinct = configurations/seeds"
 	maxes := []uint64{64, 96, 70, 128, 65}
 	cfgs := baseCfgs(r, "c11", r.Pick(30, 200), func(i int, c *HistCfg) {
@@ -223,6 +247,7 @@ func CheckC11(r *core.Run) {
 
 // CheckC10: close and reopen is lossless.
 func CheckC10(r *core.Run) {
+	defer exploreTx(r)()
 	r.Rule = "random histories with a close+reopen after many transactions; the complete projection of the reopened file must equal the one before the close (TxTrace.tla!Reopen), ReopenStable is evaluated at every quiescent point, and the continued history is judged like any other; distinct = configurations/seeds"
 	cfgs := baseCfgs(r, "c10", r.Pick(36, 200), func(i int, c *HistCfg) {
 		c.Txs = r.Pick(40, 80)
